@@ -1779,6 +1779,10 @@ class Interp:
                                                  % (alg.show(x_.poly, 60), alg.show(y_.poly, 60)), node, (self.stack[-1].split(':')[0].replace('.', '/') + '.py') if self.stack else '?'))
             return Arr(d, a.poly * b.poly, mk, _umul(a.unit, b.unit))
         if isinstance(op, ast.Div):
+            if _is_boolean(a.poly) and not a.poly.is_const() and a.ndim >= 1 and not _is_boolean(b.poly) and _may_vanish(b.poly):
+                # a truth value used as a 0/1 numerator over something that can be zero: over IEEE doubles 0 / 0 is NaN, not 0
+                self.findings.append(Finding('zero-times-inf', 'a truth value (%s) is divided by %s, which can be zero: there False / 0 is NaN, not 0'
+                                             % (alg.show(a.poly, 60), alg.show(b.poly, 60)), node, (self.stack[-1].split(':')[0].replace('.', '/') + '.py') if self.stack else '?'))
             return Arr(d, a.poly * b.poly.pow(-1), mk, _umul(a.unit, _upow(b.unit, -1)))
         if isinstance(op, ast.Pow):
             if b.poly.is_const() and b.ndim == 0:
@@ -4056,7 +4060,21 @@ def _may_be_infinite(p):
             q = Poly.from_key(a[2][1])
             if not (q.is_const() and q.const_value() > 0):
                 return True
+        if a[0] == 'pow' and a[2] < 0 and _may_vanish(Poly.from_key(a[1])):
+            return True          # 1 / (something that can be zero)
+    for m, c in p.t.items():
+        for a, e in m:
+            if e < 0 and a[0] in ('sym', 'fn') and not (a[0] == 'sym' and str(a[1]).startswith('unit:')):
+                return True          # divided by a data value, which can be zero
     return False
+
+
+def _may_vanish(p):
+    """can the value be zero for some data: anything that is not a non-zero constant (times units)"""
+    if p.is_const():
+        return p.const_value() == 0
+    syms, fns = alg.leaf_syms(p)
+    return bool({x for x in syms if not str(x).startswith('unit:')} or fns)
 
 
 def _le(diff):
